@@ -975,3 +975,342 @@ Proof.
   - rewrite eval_XNew in E. destruct (ev_list q db l) as [vs|] eqn:El; cbn [bind] in E; [|discriminate].
     eapply construct_ok; eauto. eapply ev_list_ok; eauto.
 Qed.
+
+(* ================================================================ 6. update_from_builtin *)
+Definition Rok (strict : bool) (db : tdb) (rec : pyval -> pyval -> pyval * option exc) : Prop :=
+  forall o src, wfv PW db strict o = true -> wfv PW db strict src = true ->
+    wfv PW db strict (fst (rec o src)) = true /\
+    (forall t sl, o = PObj t sl -> exists sl', fst (rec o src) = PObj t sl').
+
+Lemma ufb_elems_ok : forall strict q db rec t,
+  Rok strict db rec -> wfv PW db strict (default_obj TG PW q db t) = true ->
+  forall l os, forallb (wfv PW db strict) l = true -> ufb_elems TG PW q db rec t l = Ok os ->
+  forallb (wfv PW db strict) os = true.
+Proof.
+  intros strict q db rec t R Wd. induction l as [|s r IH]; intros os Wl E; cbn [ufb_elems] in E.
+  - inversion E; reflexivity.
+  - cbn [forallb] in Wl. apply andb_true_iff in Wl. destruct Wl as [Ws Wr].
+    destruct (R _ _ Wd Ws) as [Wo _].
+    destruct (rec (default_obj TG PW q db t) s) as [o [e|]]; [discriminate|].
+    destruct (ufb_elems TG PW q db rec t r) as [os'|] eqn:Er; cbn [bind] in E; [|discriminate].
+    inversion E; subst. cbn [forallb fst] in *. rewrite Wo, (IH _ Wr eq_refl). reflexivity.
+Qed.
+
+Definition ufb_step (q : bool) (db : tdb) (rec : pyval -> pyval -> pyval * option exc) (c : comp) (f : ftype) (i : nat)
+  (value : pyval) (slots : list pyval) : list pyval * option exc :=
+  match f with
+  | FScalar (EComp t) =>
+      let cur := nth i slots PNone in
+      let '(s1, cur1, r1) :=
+          if is_none cur then
+            let d := default_obj TG PW q db t in
+            let '(s1, r1) := set_slot TG PW q c slots i d in (s1, d, r1)
+          else (slots, cur, None) in
+      match r1 with
+      | Some e => (s1, Some e)
+      | None => let '(o', r) := rec cur1 value in (update_nth i o' s1, r)
+      end
+  | FArr _ _ _ (EComp t) =>
+      match value with
+      | PList l =>
+          match ufb_elems TG PW q db rec t l with
+          | Ok os => set_slot TG PW q c slots i (PList os)
+          | Raise e => (slots, Some e)
+          end
+      | _ => (slots, Some TypeError)
+      end
+  | _ => set_slot TG PW q c slots i value
+  end.
+
+Lemma ufb_loop_cons : forall q db rec c f fs' i kv slots,
+  ufb_loop TG PW q db rec c (f :: fs') i kv slots =
+  match lookup i kv with
+  | None => ufb_loop TG PW q db rec c fs' (S i) kv slots
+  | Some value =>
+      match ufb_step q db rec c f i value slots with
+      | (s', None) => ufb_loop TG PW q db rec c fs' (S i) kv s'
+      | (s', Some e) => (s', Some e)
+      end
+  end.
+Proof. reflexivity. Qed.
+
+Lemma obj_ok_update : forall strict c slots i f v0 v,
+  obj_ok PW strict c slots = true -> nth_error (c_fields c) i = Some f -> nth_error slots i = Some v0 ->
+  is_none v0 = false -> is_none v = false -> field_ok PW strict f v = true ->
+  obj_ok PW strict c (update_nth i v slots) = true.
+Proof.
+  intros strict c slots i f v0 v O Ef Es N0 Nv Fo. unfold obj_ok in *. apply andb_true_iff in O. destruct O as [Hf Hc].
+  rewrite (struct_after_set _ _ _ _ _ _ _ Hf Ef Fo). cbn [andb].
+  rewrite (count_active_update_nth _ _ v0 v Es) by congruence. exact Hc.
+Qed.
+
+Lemma after_set_nth : forall (u : bool) slots i v, (i < length slots)%nat ->
+  nth_error (if u then clear_others i (update_nth i v slots) else update_nth i v slots) i = Some v.
+Proof.
+  intros u slots i v Hi. destruct u; [rewrite nth_error_clear_others_eq|]; apply nth_error_update_nth_eq; exact Hi.
+Qed.
+
+Lemma set_comp_ok : forall q t x v, field_value TG PW q (FScalar (EComp t)) x = Ok v -> v = x /\ exists sl, x = PObj t sl.
+Proof.
+  intros q t x v H. cbn [field_value] in H. rewrite set_comp_gen in H. destruct x; try discriminate.
+  destruct (Nat.eqb tid t) eqn:E; inversion H; subst. apply Nat.eqb_eq in E. subst. eauto.
+Qed.
+
+Lemma lookup_wf : forall db strict kv i v, forallb (fun p => wfv PW db strict (snd p)) kv = true ->
+  lookup i kv = Some v -> wfv PW db strict v = true.
+Proof.
+  intros db strict. induction kv as [|[k a] r IH]; intros i v W E; cbn [lookup] in E; [discriminate|].
+  cbn [forallb snd] in W. apply andb_true_iff in W. destruct W as [Wa Wr].
+  destruct (Nat.eqb i k); [inversion E; subst; exact Wa | eauto].
+Qed.
+
+Lemma enum_from_wf : forall db strict l i, forallb (wfv PW db strict) l = true ->
+  forallb (fun p => wfv PW db strict (snd p)) (enum_from i l) = true.
+Proof.
+  intros db strict. induction l as [|a r IH]; intros i W; cbn [enum_from forallb snd] in *; [reflexivity|].
+  apply andb_true_iff in W. destruct W as [Wa Wr]. rewrite Wa, (IH _ Wr). reflexivity.
+Qed.
+
+Lemma ufb_step_ok : forall strict q db rec c f i value slots s' r,
+  Rok strict db rec -> (forall t, wfv PW db strict (default_obj TG PW q db t) = true) -> sideC strict q c ->
+  nth_error (c_fields c) i = Some f -> wfv PW db strict value = true ->
+  obj_ok PW strict c slots = true -> forallb (wfv PW db strict) slots = true ->
+  ufb_step q db rec c f i value slots = (s', r) ->
+  obj_ok PW strict c s' = true /\ forallb (wfv PW db strict) s' = true.
+Proof.
+  intros strict q db rec c f i value slots s' r R Wd SC Ef Wv O Ws H.
+  assert (L : length slots = length (c_fields c)).
+  { unfold obj_ok in O. apply andb_true_iff in O. destruct O as [O _]. eapply fields_ok_length; eauto. }
+  assert (Hi : (i < length slots)%nat) by (rewrite L; apply nth_error_Some; congruence).
+  assert (Generic : forall x, wfv PW db strict x = true -> set_slot TG PW q c slots i x = (s', r) ->
+                              obj_ok PW strict c s' = true /\ forallb (wfv PW db strict) s' = true).
+  { intros x Wx SS. exact (set_slot_ok q db c slots i x s' r strict SC O Ws Wx SS). }
+  destruct f as [[k|t]|fixed cap sl [k|t]]; cbn [ufb_step] in H; try (eapply Generic; eauto; fail).
+  - (* a composite-typed field: the nested instance is updated in place *)
+    destruct (is_none (nth i slots PNone)) eqn:N.
+    + destruct (set_slot TG PW q c slots i (default_obj TG PW q db t)) as [s1 r1] eqn:SS.
+      cbv beta iota zeta in H.
+      destruct (set_slot_ok q db c slots i _ s1 r1 strict SC O Ws (Wd t) SS) as [O1 W1].
+      destruct r1 as [e|]; [inversion H; subst; auto|].
+      pose proof SS as SS'. apply set_slot_cases in SS'.
+      destruct SS' as [[_ [e He]]|[_ (f' & v & Ef' & V & E1)]]; [discriminate|].
+      rewrite Ef in Ef'. inversion Ef'; subst f'. apply set_comp_ok in V. destruct V as [-> [sl0 Ed]].
+      destruct (R _ value (Wd t) Wv) as [Wo Ht]. destruct (Ht _ _ Ed) as [sl' Eo].
+      destruct (rec (default_obj TG PW q db t) value) as [o' r'] eqn:Rr. cbn [fst] in *. subst o'.
+      inversion H; subst s' r. split; [|apply forallb_update_nth; auto].
+      eapply obj_ok_update; [exact O1 | exact Ef | rewrite E1; apply after_set_nth; exact Hi | | | ].
+      * rewrite Ed; reflexivity.
+      * reflexivity.
+      * cbn [field_ok]. apply Nat.eqb_refl.
+    + cbv beta iota zeta in H.
+      assert (Es : nth_error slots i = Some (nth i slots PNone)) by (apply nth_error_nth'; exact Hi).
+      assert (Wc : wfv PW db strict (nth i slots PNone) = true) by (apply nth_wf; exact Ws).
+      assert (exists sl0, nth i slots PNone = PObj t sl0) as [sl0 Ed].
+      { unfold obj_ok in O. apply andb_true_iff in O. destruct O as [Hf _]. apply fields_ok_nth in Hf.
+        destruct Hf as [_ Hf]. specialize (Hf _ _ _ Ef Es). unfold fok in Hf. rewrite N, andb_false_r in Hf.
+        cbn [orb field_ok] in Hf. destruct (nth i slots PNone); try discriminate.
+        apply Nat.eqb_eq in Hf. subst. eauto. }
+      destruct (R _ value Wc Wv) as [Wo Ht]. destruct (Ht _ _ Ed) as [sl' Eo].
+      destruct (rec (nth i slots PNone) value) as [o' r'] eqn:Rr. cbn [fst] in *. subst o'.
+      inversion H; subst s' r. split; [|apply forallb_update_nth; auto].
+      eapply obj_ok_update; [exact O | exact Ef | exact Es | exact N | reflexivity | ].
+      cbn [field_ok]. apply Nat.eqb_refl.
+  - (* array of composites *)
+    destruct value as [| | | | | |l| | |]; try (inversion H; subst; auto; fail).
+    destruct (ufb_elems TG PW q db rec t l) as [os|e] eqn:Eo; [|inversion H; subst; auto].
+    eapply (Generic (PList os)); [|exact H]. cbn [wfv] in *. exact (ufb_elems_ok strict q db rec t R (Wd t) l os Wv Eo).
+Qed.
+
+Lemma ufb_loop_ok : forall strict q db rec c,
+  Rok strict db rec -> (forall t, wfv PW db strict (default_obj TG PW q db t) = true) -> sideC strict q c ->
+  forall fs i kv slots, (forall j, nth_error fs j = nth_error (c_fields c) (i + j)) ->
+  forallb (fun p => wfv PW db strict (snd p)) kv = true ->
+  obj_ok PW strict c slots = true -> forallb (wfv PW db strict) slots = true ->
+  obj_ok PW strict c (fst (ufb_loop TG PW q db rec c fs i kv slots)) = true /\
+  forallb (wfv PW db strict) (fst (ufb_loop TG PW q db rec c fs i kv slots)) = true.
+Proof.
+  intros strict q db rec c R Wd SC. induction fs as [|f fs IH]; intros i kv slots Hfs Wkv O Ws.
+  - cbn [ufb_loop fst]. auto.
+  - rewrite ufb_loop_cons.
+    assert (Hfs' : forall j, nth_error fs j = nth_error (c_fields c) (Datatypes.S i + j)).
+    { intros j. specialize (Hfs (Datatypes.S j)). cbn [nth_error] in Hfs. rewrite Hfs. f_equal. clear; lia. }
+    assert (Ef : nth_error (c_fields c) i = Some f).
+    { specialize (Hfs 0%nat). cbn [nth_error] in Hfs. rewrite Nat.add_0_r in Hfs. auto. }
+    destruct (lookup i kv) as [value|] eqn:Lk; [|apply IH; auto].
+    pose proof (lookup_wf _ _ _ _ _ Wkv Lk) as Wv.
+    destruct (ufb_step q db rec c f i value slots) as [s' r] eqn:St.
+    destruct (ufb_step_ok strict q db rec c f i value slots s' r R Wd SC Ef Wv O Ws St) as [O' W'].
+    destruct r as [e|]; [cbn [fst]; auto | apply IH; auto].
+Qed.
+
+Definition ufb_kv_seq (c : comp) (sq : list pyval) : res (list (nat * pyval)) :=
+  let fs := c_fields c in
+  let too_many := Nat.ltb (if c_union c then 1%nat else length fs) (length sq) in
+  let sq' := if is_propagating fs && too_many then [PList sq] else sq in
+  if Nat.ltb (length fs) (length sq') then Raise TypeError else Ok (enum_from 0 sq').
+Definition ufb_kv (c : comp) (src : pyval) : res (list (nat * pyval)) :=
+  match src with PDict kv => Ok kv | PList l => ufb_kv_seq c l | _ => ufb_kv_seq c [src] end.
+
+Lemma ufb_S : forall q db fuel tid slots src,
+  ufb TG PW q db (S fuel) (PObj tid slots) src =
+  match nth_error db tid with
+  | None => (PObj tid slots, Some AttributeError)
+  | Some c =>
+      match ufb_kv c src with
+      | Raise e => (PObj tid slots, Some e)
+      | Ok kv =>
+          match ufb_loop TG PW q db (ufb TG PW q db fuel) c (c_fields c) 0 kv slots with
+          | (s', Some e) => (PObj tid s', Some e)
+          | (s', None) =>
+              if existsb (fun p => Nat.leb (length (c_fields c)) (fst p)) kv
+              then (PObj tid s', Some ValueError) else (PObj tid s', None)
+          end
+      end
+  end.
+Proof. intros. destruct src; reflexivity. Qed.
+
+Lemma ufb_kv_wf : forall db strict c src kv, wfv PW db strict src = true -> ufb_kv c src = Ok kv ->
+  forallb (fun p => wfv PW db strict (snd p)) kv = true.
+Proof.
+  intros db strict c src kv W E.
+  assert (Seq : forall sq, forallb (wfv PW db strict) sq = true -> ufb_kv_seq c sq = Ok kv ->
+                           forallb (fun p => wfv PW db strict (snd p)) kv = true).
+  { intros sq Wsq Es. unfold ufb_kv_seq in Es. cbv zeta in Es.
+    set (sq' := if is_propagating (c_fields c) && _ then [PList sq] else sq) in Es.
+    assert (W' : forallb (wfv PW db strict) sq' = true).
+    { subst sq'. destruct (is_propagating (c_fields c) && _); [cbn [forallb wfv]; rewrite Wsq; reflexivity | exact Wsq]. }
+    clearbody sq'. destruct (Nat.ltb (length (c_fields c)) (length sq')); [discriminate|].
+    injection Es as <-. apply enum_from_wf; exact W'. }
+  destruct src as [| | | | | |l0|l0| |]; cbn [ufb_kv] in E; try (apply (Seq _) in E; [exact E | cbn [forallb]; rewrite W; reflexivity]; fail).
+  - apply (Seq l0); auto.
+  - inversion E; subst. exact W.
+Qed.
+
+Lemma ufb_Rok : forall strict q db, side strict q db -> db_wok db = true -> forall fuel, Rok strict db (ufb TG PW q db fuel).
+Proof.
+  intros strict q db Sd Wdb. induction fuel as [|fuel IH]; intros o src Wo Wsrc.
+  - cbn [ufb fst]. split; [exact Wo|]. intros t sl ->. eauto.
+  - destruct o as [| | | | | | | | |tid slots]; try (cbn [ufb fst]; split; [exact Wo | intros t sl E; discriminate]).
+    rewrite ufb_S. cbn [wfv] in Wo. destruct (nth_error db tid) as [c|] eqn:Ec; [|discriminate].
+    apply andb_true_iff in Wo. destruct Wo as [O Ws].
+    assert (Fin : forall s' r, obj_ok PW strict c s' = true -> forallb (wfv PW db strict) s' = true ->
+              wfv PW db strict (fst (PObj tid s', r : option exc)) = true /\
+              (forall t sl, PObj tid slots = PObj t sl -> exists sl', fst (PObj tid s', r) = PObj t sl')).
+    { intros s' r O' W'. cbn [fst wfv]. rewrite Ec, O', W'. split; [reflexivity|]. intros t sl E. inversion E; subst. eauto. }
+    destruct (ufb_kv c src) as [kv|e] eqn:Ek; [|apply Fin; auto].
+    pose proof (ufb_kv_wf _ _ _ _ _ Wsrc Ek) as Wkv.
+    destruct (ufb_loop_ok strict q db (ufb TG PW q db fuel) c IH (default_obj_ok q db strict Sd Wdb)
+                (side_C _ _ _ _ _ Sd Ec) (c_fields c) 0 kv slots (fun j => eq_refl) Wkv O Ws) as [O' W'].
+    destruct (ufb_loop TG PW q db (ufb TG PW q db fuel) c (c_fields c) 0 kv slots) as [s' [e|]]; cbn [fst] in O', W'.
+    + apply Fin; auto.
+    + destruct (existsb _ kv); apply Fin; auto.
+Qed.
+
+Theorem ufb_ok : forall q db (strict : bool),
+  (strict = false \/ q = false \/ db_std_elems PW db = true) -> db_wok db = true ->
+  forall fuel o src, wfv PW db strict o = true -> wfv PW db strict src = true ->
+  wfv PW db strict (fst (ufb TG PW q db fuel o src)) = true.
+Proof. intros q db strict Sd Wdb fuel o src Wo Ws. apply (ufb_Rok strict q db Sd Wdb fuel o src Wo Ws). Qed.
+
+Theorem ufb_keeps_tid : forall q db fuel tid sl src, exists sl', fst (ufb TG PW q db fuel (PObj tid sl) src) = PObj tid sl'.
+Proof.
+  intros q db fuel tid sl src. destruct fuel as [|fuel]; [cbn [ufb fst]; eauto|].
+  rewrite ufb_S. destruct (nth_error db tid) as [c|]; [|cbn [fst]; eauto].
+  destruct (ufb_kv c src) as [kv|e]; [|cbn [fst]; eauto].
+  destruct (ufb_loop _ _ _ _ _ _ _ _ _ _) as [s' [e|]]; [cbn [fst]; eauto|].
+  destruct (existsb _ kv); cbn [fst]; eauto.
+Qed.
+
+(* ================================================================ 7. the contract holds along every run *)
+Definition tid_ok (tid : nat) (o : pyval) : Prop := match o with PObj t _ => t = tid | _ => True end.
+
+Lemma construct_with_tid : forall q db defs tid kw o, construct_with TG PW q db defs tid kw = Ok o -> exists sl, o = PObj tid sl.
+Proof.
+  intros q db defs tid kw o H. unfold construct_with in H.
+  destruct (nth_error db tid) as [c|]; [|discriminate].
+  destruct (c_union c).
+  - destruct (ctor_union_args _ _ _ _ _ _ _ _ _) as [[slots cnt]|]; cbn [bind] in H; [|discriminate].
+    destruct cnt as [|[|n]].
+    + destruct (c_fields c); [inversion H; eauto|].
+      destruct (set_slot _ _ _ _ _ _ _) as [s' [e|]]; inversion H; eauto.
+    + inversion H; eauto.
+    + destruct (t_union_ctor_count TG); inversion H; eauto.
+  - destruct (ctor_struct _ _ _ _ _ _ _ _ _) as [slots|]; cbn [bind] in H; inversion H; eauto.
+Qed.
+
+Lemma defaults_aux_tid : forall q db n tid acc, length acc = tid -> (forall j, tid_ok j (nth j acc PNone)) ->
+  forall j, tid_ok j (nth j (defaults_aux TG PW q db n tid acc) PNone).
+Proof.
+  intros q db. induction n as [|n IH]; intros tid acc L Ha j; cbn [defaults_aux]; [apply Ha|].
+  apply IH.
+  - rewrite app_length. cbn [length]. clear - L. lia.
+  - intros k. destruct (Nat.lt_ge_cases k (length acc)) as [Hk|Hk].
+    + rewrite app_nth1 by exact Hk. apply Ha.
+    + rewrite app_nth2 by exact Hk. destruct (k - length acc)%nat as [|m] eqn:D.
+      * cbn [nth]. assert (k = tid) by (clear - L Hk D; lia). subst k.
+        destruct (construct_with TG PW q db acc tid []) as [o|] eqn:E; [|exact I].
+        apply construct_with_tid in E. destruct E as [sl ->]. reflexivity.
+      * cbn [nth]. destruct m; exact I.
+Qed.
+
+Lemma default_obj_tid : forall q db tid, tid_ok tid (default_obj TG PW q db tid).
+Proof.
+  intros q db tid. unfold default_obj, defaults. apply defaults_aux_tid; [reflexivity|].
+  intros j. destruct j; exact I.
+Qed.
+
+Lemma step_ok : forall strict q db, side strict q db -> db_wok db = true ->
+  forall tid o p, wfv PW db strict o = true -> tid_ok tid o ->
+  wfv PW db strict (fst (step TG PW q db tid o p)) = true /\ tid_ok tid (fst (step TG PW q db tid o p)).
+Proof.
+  intros strict q db Sd Wdb tid o p Wo To. destruct p as [i e|fuel e|kw]; cbn [step].
+  - destruct (eval TG PW q db e) as [x|] eqn:Ee; [|cbn [fst]; auto].
+    pose proof (eval_ok q db strict Sd Wdb _ _ Ee) as Wx.
+    destruct o as [| | | | | | | | |t slots]; try (cbn [fst]; auto; fail).
+    destruct (nth_error db tid) as [c|] eqn:Ec; [|cbn [fst]; auto].
+    destruct (set_slot TG PW q c slots i x) as [s' r] eqn:SS. cbn [fst].
+    cbn [tid_ok] in To. subst t. cbn [wfv] in Wo. rewrite Ec in Wo. apply andb_true_iff in Wo. destruct Wo as [O Ws].
+    destruct (set_slot_ok q db c slots i x s' r strict (side_C _ _ _ _ _ Sd Ec) O Ws Wx SS) as [O' W'].
+    split; [cbn [wfv]; rewrite Ec, O', W'; reflexivity | reflexivity].
+  - destruct (eval TG PW q db e) as [x|] eqn:Ee; [|cbn [fst]; auto].
+    pose proof (eval_ok q db strict Sd Wdb _ _ Ee) as Wx.
+    split; [apply ufb_ok; auto|].
+    destruct o as [| | | | | | | | |t slots]; try (destruct fuel; cbn [ufb fst]; exact I).
+    destruct (ufb_keeps_tid q db fuel t slots x) as [sl' ->]. exact To.
+  - destruct (eval TG PW q db (XNew tid kw)) as [o'|] eqn:Ee; cbn [fst]; [|auto].
+    split; [eapply eval_ok; eauto|].
+    rewrite eval_XNew in Ee. destruct (ev_list q db kw) as [vs|]; cbn [bind] in Ee; [|discriminate].
+    apply construct_tid in Ee. destruct Ee as [sl ->]. reflexivity.
+Qed.
+
+Lemma run_ok : forall strict q db, side strict q db -> db_wok db = true ->
+  forall tid ops, wfv PW db strict (run TG PW q db tid ops) = true.
+Proof.
+  intros strict q db Sd Wdb tid ops. unfold run.
+  assert (G : forall ops o, wfv PW db strict o = true -> tid_ok tid o ->
+              wfv PW db strict (fold_left (fun o p => fst (step TG PW q db tid o p)) ops o) = true).
+  { clear ops. induction ops as [|p ops IH]; intros o Wo To; cbn [fold_left]; [exact Wo|].
+    destruct (step_ok strict q db Sd Wdb tid o p Wo To) as [W' T']. apply IH; auto. }
+  apply G; [apply default_obj_ok; auto | apply default_obj_tid].
+Qed.
+
+(* shape-level contract: every quirk setting *)
+Theorem obj_invariant : forall q db tid ops, db_wok db = true -> wfv PW db false (run TG PW q db tid ops) = true.
+Proof. intros q db tid ops Wdb. apply run_ok; auto. left; reflexivity. Qed.
+
+(* full contract (array elements inside the DSDL range) of the conformant variant *)
+Theorem obj_invariant_strict_noquirk : forall db tid ops, db_wok db = true ->
+  wfv PW db true (run TG PW false db tid ops) = true.
+Proof. intros db tid ops Wdb. apply run_ok; auto. right; left; reflexivity. Qed.
+
+(* full contract of the shipped code when no integer array has a non-standard element width *)
+Theorem obj_invariant_partial : forall db tid ops, db_wok db = true -> db_std_elems PW db = true ->
+  wfv PW db true (run TG PW true db tid ops) = true.
+Proof. intros db tid ops Wdb Hs. apply run_ok; auto. right; right; exact Hs. Qed.
+
+(* ... and db_wok cannot be dropped: the default instance of these types already violates the contract *)
+Theorem obj_invariant_needs_wok : forall q,
+  wfv PW [{| c_union := true; c_fields := [] |}] false (run TG PW q [{| c_union := true; c_fields := [] |}] 0 []) = false /\
+  wfv PW [{| c_union := false; c_fields := [FArr true 1 false (EPrim (KS 65))] |}] false
+      (run TG PW q [{| c_union := false; c_fields := [FArr true 1 false (EPrim (KS 65))] |}] 0 []) = false.
+Proof. intros q; destruct q; split; vm_compute; reflexivity. Qed.
